@@ -56,7 +56,7 @@ pub fn replay(file: &str) -> i32 {
     // asked about every state, twin passes, generator draws, rebuilt draws): the replay is the
     // check itself, re-run in the tier that found the witness
     let kind = v["extra"]["kind"].as_str().unwrap_or("");
-    if matches!(kind, "c11-nearkey" | "c11-pool" | "c05-registered" | "c02-pass" | "c02-twins" | "c06-pass" | "c06-twins" | "c11-draw" | "other-draw" | "c05-const" | "c14-path" | "c14-binary" | "c10-cli" | "hang" | "c09-free" | "c09-free-hang") {
+    if matches!(kind, "c16-game" | "c11-nearkey" | "c11-pool" | "c05-registered" | "c02-pass" | "c02-twins" | "c06-pass" | "c06-twins" | "c11-draw" | "other-draw" | "c05-const" | "c14-path" | "c14-binary" | "c10-cli" | "hang" | "c09-free" | "c09-free-hang") {
         let tier = v["tier"].as_str().unwrap_or("quick").to_string();
         println!("REPLAY: this witness ({}) is reproduced by re-running the whole check `{} {}`", kind, prop, tier);
         let a = Args { prop: prop.clone(), tier, seed: 0, threads: std::thread::available_parallelism().map(|n| n.get()).unwrap_or(8) };
